@@ -27,3 +27,43 @@ mut("c05_mean_weights_wrong_for_single_row", "aggregation/mean.py",
     "weights = torch.full(size=[m], fill_value=1 / m, device=device, dtype=dtype)",
     "weights = torch.full(size=[m], fill_value=1 / max(m, 2), device=device, dtype=dtype)",
     ["C05", "C01"])
+mut("c06_no_clone", "autojac/_transform/accumulate.py",
+    "                key.grad = gradients[key].clone()",
+    "                key.grad = gradients[key]",
+    ["C06"])
+mut("c06_assign_instead_of_accumulate", "autojac/_transform/accumulate.py",
+    "                key.grad += gradients[key]",
+    "                key.grad = gradients[key].clone()",
+    ["C06", "C01"])
+mut("c06_grad_side_effect_backward_call", "autojac/_transform/grad.py",
+    "        optional_grads = torch.autograd.grad(\n            outputs,\n            inputs,\n            grad_outputs=grad_outputs,\n            retain_graph=self.retain_graph,",
+    "        if len(outputs) == 1 and outputs[0].ndim == 0 and self.retain_graph:\n            outputs[0].backward(grad_outputs[0], retain_graph=True, inputs=[i for i in inputs if i.is_leaf] or None)\n        optional_grads = torch.autograd.grad(\n            outputs,\n            inputs,\n            grad_outputs=grad_outputs,\n            retain_graph=self.retain_graph,",
+    ["C06"])
+mut("c20_revert_two_phase_accumulate", "autojac/_transform/accumulate.py",
+    "        for key in gradients.keys():\n            _check_expects_grad(key)\n\n        for key in gradients.keys():\n",
+    "        for key in gradients.keys():\n            _check_expects_grad(key)\n",
+    ["C20"])
+mut("c20_revert_mtl_precheck", "autojac/mtl_backward.py",
+    "    for param in [*shared_params, *(param for task_params in tasks_params for param in task_params)]:\n        _check_expects_grad(param)\n",
+    "",
+    ["C20"])
+mut("c19_revert_reuse_fix", "aggregation/nash_mtl.py",
+    "            alpha = self.prvs_alpha\n\n        alpha = torch.from_numpy(alpha).to(device=matrix.device, dtype=matrix.dtype)\n",
+    "            alpha = self.prvs_alpha\n        if isinstance(alpha, np.ndarray) and (self.step - 1) % self.update_weights_every == 0:\n            alpha = torch.from_numpy(alpha).to(device=matrix.device, dtype=matrix.dtype)\n",
+    ["C19"])
+mut("c19_reset_forgets_prvs_alpha", "aggregation/nash_mtl.py",
+    '        """Resets the internal state of the algorithm."""\n\n        self.prvs_alpha_param = None\n        self.normalization_factor = np.ones((1,))\n        self.init_gtg = np.eye(self.n_tasks)\n        self.step = 0.0\n        self.prvs_alpha = np.ones(self.n_tasks, dtype=np.float32)',
+    '        """Resets the internal state of the algorithm."""\n\n        self.prvs_alpha_param = None\n        self.normalization_factor = np.ones((1,))\n        self.init_gtg = np.eye(self.n_tasks)\n        self.step = 0.0',
+    ["C19"])
+mut("c19_reset_forgets_step", "aggregation/nash_mtl.py",
+    '        """Resets the internal state of the algorithm."""\n\n        self.prvs_alpha_param = None\n        self.normalization_factor = np.ones((1,))\n        self.init_gtg = np.eye(self.n_tasks)\n        self.step = 0.0\n',
+    '        """Resets the internal state of the algorithm."""\n\n        self.prvs_alpha_param = None\n        self.normalization_factor = np.ones((1,))\n        self.init_gtg = np.eye(self.n_tasks)\n',
+    ["C19"])
+mut("c19_reset_forgets_normalization", "aggregation/nash_mtl.py",
+    '        """Resets the internal state of the algorithm."""\n\n        self.prvs_alpha_param = None\n        self.normalization_factor = np.ones((1,))\n',
+    '        """Resets the internal state of the algorithm."""\n\n        self.prvs_alpha_param = None\n',
+    ["C19"], expect=0)  # normalization_factor is overwritten before any use on the first call after reset
+mut("c19_recompute_off_by_one", "aggregation/nash_mtl.py",
+    "        if (self.step % self.update_weights_every) == 0:",
+    "        if (self.step % self.update_weights_every) == 0 or self.step == 1:",
+    ["C19"])
